@@ -476,3 +476,80 @@ func H_map_samesize_clear() {
 	checkLookup(t, h, &g, q, "C06.samesize.clear.lookup")
 	nd_reach("C06.samesize.clear")
 }
+
+// ---- NaN keys: every insert is a new entry with a random hash; only iteration sees them ----
+
+// mapTypeNaN: map[float64]uint64 with the real f64equal; like f64hash the hasher
+// draws a fresh random hash for a NaN at every call (bucket bits = low byte, tophash =
+// next byte of the random value), so evacuation re-hashes NaN entries at random.
+func mapTypeNaN() *abi.MapType {
+	t := mapType64()
+	t.Key = &abi.Type{Size_: 8, Align_: 8, FieldAlign_: 8, Kind_: uint8(abi.Float64), Equal: f64equal}
+	t.Hasher = func(p unsafe.Pointer, seed uintptr) uintptr {
+		f := *(*float64)(p)
+		if f != f {
+			r := uintptr(fastrand())
+			return r&0xff | (r>>8&0xff)<<56
+		}
+		return uintptr(*(*uint64)(p))
+	}
+	t.Flags = 8 // NeedKeyUpdate; the key is not reflexive
+	return t
+}
+
+// a range loop that starts while the table is doubling (4 old buckets, some not yet
+// evacuated) and whose body inserts another NaN: every entry that was present when
+// the loop started is produced exactly once, the new one at most once
+func mapNaNIterGrow(seeds, pres uint64) {
+	t := mapTypeNaN()
+	x := uint32(pick("seed", 0, seeds))*2654435761 + 12345
+	for i := 0; i < 200; i++ {
+		x = x*1664525 + 1013904223
+		nd_setrand(int(x >> 8 & 0xffff))
+	}
+	h := makemap(t, 0, nil)
+	bits := uint64(0x7ff8000000000001)
+	nan := *(*float64)(unsafe.Pointer(&bits))
+	// insert until the table is in the middle of doubling from 4 to 8 buckets
+	n := 0
+	for n < 36 && !(h.B == 3 && h.growing()) {
+		p := mapassign(t, h, unsafe.Pointer(&nan))
+		n++
+		*(*uint64)(p) = uint64(n)
+	}
+	nd_assume(h.count == n && h.B == 3 && h.growing() && !h.sameSizeGrow())
+	var it hiter
+	var seen [40]int
+	mapiterinit(t, h, &it)
+	steps := 0
+	step := func() {
+		v := *(*uint64)(it.elem)
+		nd_assert(v >= 1 && v <= uint64(n+1), "C06.nan.iter.live")
+		if v < 40 {
+			seen[v]++
+		}
+		mapiternext(&it)
+		steps++
+	}
+	pre := int(pick("pre", 0, pres)) * 4
+	for it.key != nil && steps < pre {
+		step()
+	}
+	p := mapassign(t, h, unsafe.Pointer(&nan))
+	*(*uint64)(p) = uint64(n + 1)
+	for it.key != nil && steps < 60 {
+		step()
+	}
+	ok := seen[n+1] <= 1
+	for i := 1; i <= n; i++ {
+		if seen[i] != 1 {
+			ok = false
+		}
+	}
+	nd_assert(ok, "C06.nan.iter.once")
+	nd_assert(h.count == n+1, "C06.nan.len")
+	nd_reach("C06.nan.iter")
+}
+
+func H_map_nan_iter_grow()      { mapNaNIterGrow(3, 3) }
+func H_map_nan_iter_grow_wide() { mapNaNIterGrow(15, 6) }
